@@ -472,7 +472,17 @@ func runUFlight(w *bufio.Writer, seed uint64, n int, _ []string) {
 	}
 
 	// ---- validateInitialFlight on arbitrary payloads (what a custom QUICFlightFrameBuilder could return) ----
-	for i := 0; i < n/2+4; i++ {
+	fixed := [][][]byte{
+		// the last CRYPTO frame announces 20 bytes and carries 8: accepted, goes on the wire truncated
+		{append([]byte{0x06, 0x00, 0x14}, testDataFixed(20)[:8]...)},
+		// frame type 6 written as a two-byte varint (not a valid frame encoding, RFC 9000 12.4)
+		{append([]byte{0x40, 0x06, 0x00, 0x14}, testDataFixed(20)...)},
+		// a CRYPTO frame announcing 2^61 bytes
+		{{0x06, 0x00, 0xe0, 0, 0, 0, 0, 0, 0, 0}},
+		// well-formed and complete (control)
+		{append([]byte{0x01, 0x06, 0x00, 0x14}, testDataFixed(20)...), {0x00, 0x00}},
+	}
+	for i := 0; i < n/2+4+len(fixed); i++ {
 		r := root.Fork()
 		clen := r.Range(0, 60)
 		data := testData(r, clen)
@@ -480,6 +490,9 @@ func runUFlight(w *bufio.Writer, seed uint64, n int, _ []string) {
 		var payloads [][]byte
 		pos := 0
 		hostile := r.Intn(3) == 0
+		if i < len(fixed) {
+			clen, data, ndg, payloads = 20, testDataFixed(20), 0, fixed[i]
+		}
 		for d := 0; d < ndg; d++ {
 			var p []byte
 			for k := r.Range(0, 5); k > 0; k-- {
@@ -526,6 +539,9 @@ func runUFlight(w *bufio.Writer, seed uint64, n int, _ []string) {
 			payloads = append(payloads, p)
 		}
 		budgets := genBudgets(r, payloads)
+		if i < len(fixed) {
+			budgets = []int{0}
+		}
 		var verr error
 		var vpan any
 		func() {
@@ -568,6 +584,14 @@ func runUFlight(w *bufio.Writer, seed uint64, n int, _ []string) {
 	for _, k := range keys {
 		fmt.Fprintf(w, "DIST\t%s\t%d\n", k, dist[k])
 	}
+}
+
+func testDataFixed(n int) []byte {
+	b := make([]byte, n)
+	for i := range b {
+		b[i] = byte(0x41 + i)
+	}
+	return b
 }
 
 // appendVarintAny appends v as a QUIC varint, sometimes in a longer-than-necessary width.
